@@ -18,6 +18,10 @@
    kernel timeout, pure returns.  TLC places them anywhere between the neighbouring logged events. *)
 EXTENDS Block, Json, IOUtils, TLCExt
 
+CONSTANT Level   \* "word": every record is matched; "api": only the API-visible events are matched, the
+                 \* accesses to the private data and the group are skipped and their spec steps are silent
+                 \* (used to decide whether a word-level deviation is visible in the API-level history)
+
 Tr == ndJsonDeserialize(IOEnv.TRACE)
 \* record 1 is a header written by the runner: {"e":"Header","nt":<number of threads>}
 TraceThreads == 0..(Tr[1].nt - 1)
@@ -87,36 +91,47 @@ TUgDone     == /\ Ev("UgDone") /\ Consume /\ Same /\ ug = 0
                /\ \A k \in 1..MaxInv : inv[k].api = "gasync" => inv[k].pc = "done"
 
 (* --------------------------- atomics on the private data --------------------------- *)
-TAF == /\ Ev("AF") /\ Consume /\ af = Rec.old /\ af' = Rec.new /\ Rec.ok = 1
+TAF == /\ Level = "word" /\ Ev("AF") /\ Consume /\ af = Rec.old /\ af' = Rec.new /\ Rec.ok = 1
        /\ \/ Rec.op = "or" /\ (C_Or(Rec.t) \/ W_Or(Rec.t) \/ (wres.rc = 0 /\ W_Fin(Rec.t)))
           \/ Rec.op = "and" /\ wres.rc # 0 /\ W_Fin(Rec.t)
-TPerf == /\ Ev("Perf") /\ Consume /\ performed = Rec.old /\ performed' = Rec.new
+TPerf == /\ Level = "word" /\ Ev("Perf") /\ Consume /\ performed = Rec.old /\ performed' = Rec.new
          /\ \/ Rec.op = "add" /\ \E k \in 1..MaxInv : I_Inc(k, Rec.t)
             \/ Rec.op = "load" /\ (W_LoadPerf(Rec.t) \/ N_Load(Rec.t))
-TDQ == /\ Ev("DQ") /\ Consume /\ dq = Rec.old /\ dq' = Rec.new
+TDQ == /\ Level = "word" /\ Ev("DQ") /\ Consume /\ dq = Rec.old /\ dq' = Rec.new
        /\ \/ Rec.op = "cmpxchg" /\ S_Cas(Rec.t) /\ (Rec.ok = 1 <=> dq = 0)
           \/ Rec.op = "xchg" /\ (W_Xchg(Rec.t) \/ \E k \in 1..MaxInv : I_Xchg(k, Rec.t))
 
 (* ------------------------------ the private group's words ------------------------------ *)
 InGroupOp(t) == \/ pc[t] \in {"w_gcheck", "w_sleep", "w_fin", "n_reg", "n_ret"}
                 \/ \E k \in 1..MaxInv : inv[k].thr = t /\ inv[k].pc = "i_wake"
-\* dispatch_group_leave: os_atomic_add_orig2o(dg, dg_state, INTERVAL, release)
-TGLeave == /\ Ev("G") /\ Rec.op = "add" /\ Consume
-           /\ Rec.w = "state" /\ gcnt = Rec.ocnt /\ ggen = Rec.ogen
+\* dispatch_group_leave: os_atomic_add_orig2o(dg, dg_state, INTERVAL, release) -- the access that changes the count
+TGLeave == /\ Level = "word" /\ Ev("G") /\ Rec.ncnt # Rec.ocnt /\ Consume
+           /\ gcnt = Rec.ocnt /\ ggen = Rec.ogen
            /\ \E k \in 1..MaxInv : I_Leave(k, Rec.t)
            /\ gcnt' = Rec.ncnt /\ ggen' = Rec.ngen
 \* any other access: by a thread inside a group operation, showing the abstract count / generation, changing
 \* neither (the give-up of an rmw loop is logged after its load with the value loaded then: not compared)
-TGOther == /\ Ev("G") /\ Rec.op # "add" /\ Consume /\ Same
+TGOther == /\ Level = "word" /\ Ev("G") /\ Rec.ncnt = Rec.ocnt /\ Consume /\ Same
            /\ InGroupOp(Rec.t)
            /\ Rec.op # "giveup" => (Rec.ocnt \in {-1, gcnt} /\ Rec.ogen \in {-1, ggen})
-           /\ Rec.ncnt = Rec.ocnt /\ Rec.ngen = Rec.ogen
-TFutex == /\ Ev("Futex") /\ Consume /\ Same /\ InGroupOp(Rec.t)
+           /\ Rec.ngen = Rec.ogen
+TFutex == /\ Level = "word" /\ Ev("Futex") /\ Consume /\ Same /\ InGroupOp(Rec.t)
+\* API level: the word-level records are skipped ...
+TWordSkip == /\ Level = "api" /\ l <= Len(Tr) /\ Rec.e \in {"AF", "Perf", "DQ", "G", "Futex"} /\ Consume /\ Same
+\* ... and the steps they were bound to are silent (an unbound invocation is bound to its own marker thread)
+Bind(k) == IF inv[k].thr = NoThr THEN 0 ELSE inv[k].thr
+TApiSilent == /\ Level = "api" /\ l <= Len(Tr) /\ UNCHANGED l
+              /\ \/ \E t \in Threads : \/ C_Or(t) \/ W_Or(t) \/ W_Xchg(t) \/ W_LoadPerf(t) \/ W_Fin(t)
+                                       \/ N_Load(t) \/ S_Cas(t)
+                 \/ \E k \in 1..MaxInv : \/ (inv[k].pc = "i_inc" /\ I_Inc(k, Bind(k)))
+                                          \/ (inv[k].pc = "i_leave" /\ I_Leave(k, Bind(k)))
+                                          \/ (inv[k].pc = "i_xchg" /\ I_Xchg(k, Bind(k)))
 
 (* ------------------------------------ silent steps ------------------------------------ *)
 TSilent == /\ l <= Len(Tr) /\ UNCHANGED l
            /\ \/ \E t \in Threads : \/ T_Read(t) \/ W_ReadThr(t) \/ W_GCheck(t) \/ W_Wake(t) \/ W_Timeout(t)
                                     \/ N_Reg(t) \/ N_Ret(t) \/ S_Push(t) \/ P_Read(t)
+                                    \/ C_PlainRead(t) \/ C_PlainWrite(t)
               \/ \E k \in 1..MaxInv : I_Start(k) \/ I_Read(k) \/ I_SetThr(k) \/ I_WakeDone(k) \/ I_UgLeave(k)
 
 TNext == \/ TReset \/ TEnd \/ TSkip
@@ -124,7 +139,7 @@ TNext == \/ TReset \/ TEnd \/ TSkip
          \/ TWaitCall \/ TWaitRet \/ TNotifyCall \/ TNotifyRet \/ TNotifyRan \/ TBodyStart \/ TBodyEnd
          \/ TGateStart \/ TGateEnd \/ TPerformCall \/ TPBodyStart \/ TPBodyEnd \/ TPerformRet \/ TUgDone
          \/ TAF \/ TPerf \/ TDQ \/ TGLeave \/ TGOther \/ TFutex
-         \/ TSilent
+         \/ TSilent \/ TWordSkip \/ TApiSilent
 
 TSpec == TInit /\ [][TNext]_tvars
 
